@@ -8,12 +8,13 @@ request (11 blank-separated fields):
 (`carryJmp`: result of the harness' probe whether `JmpErrors` survives from one source file to the next)
 * files = `;`-separated, each `<org>:<tok>,<tok>,…` with tok =
   `Dw|Du|De|Df` (diagnostic line), `S<v>` (LISTING v), `V`/`W` (SAVE/RESTORE), `L<n>` (label), `Q<n>=<v>` (EQU), `F<k>` (k bytes),
-  `A<n>` (6502 lda sym), `R<n>` (6502 relative branch), `P<n>` (8048 page jump), `J<n>` (Z80 jr)
+  `A<n>` (6502 lda sym), `R<n>` (6502 relative branch), `P<n>` (8048 page jump), `J<n>` (Z80 jr),
+  `N<num>` (a line raising the numbered diagnostic num), `X<n1>+<n2>+…` (EXPECT n1,n2,…), `Y` (ENDEXPECT)
 * obs = `<status>;<file>;…`, file = `<code 0|1>:<sum e.w|->:<lstsum e.w|->:<lstmsgs e.w|->:<merged 0|1>:<e.w.j/e.w.j/…>`
   (`-` as whole obs: no observation, only the model is wanted)
 
 answer: `m=<status>;<file>;… ms=<spec on the model's observation> rs=<spec on the real observation>`
-with model file = `<code>:<sumE>.<sumW>:<lstsum 0|1>:<lstE>.<lstW>:<fatal>:<dbl>:<conE.conW.chanE.chanW.jmp.forgotten/…>`;
+with model file = `<code>:<sumE>.<sumW>:<lstsum 0|1>:<lstE>.<lstW>:<fatal>:<dbl>:<conE.conW.chanE.chanW.jmp.forgotten.filtered/…>`;
 spec results are `ok` or the `+`-joined names of the violated clauses. -/
 namespace Driver.C02Chan
 open AslModel.ErrChan AslModel.Report
@@ -31,6 +32,9 @@ def parseTok (t : String) : Option Stmt :=
   | 'D' :: 'f' :: [] => some (.diag .fatal)
   | 'V' :: [] => some .save
   | 'W' :: [] => some .restore
+  | 'Y' :: [] => some .endexpect
+  | 'N' :: _ => (natAfter t).map Stmt.num
+  | 'X' :: _ => (((t.drop 1).toString.splitOn "+").mapM fun (x : String) => x.toNat?).map Stmt.expect
   | 'S' :: _ => (natAfter t).map Stmt.listing
   | 'L' :: _ => (natAfter t).map Stmt.label
   | 'F' :: _ => (natAfter t).map Stmt.fill
@@ -96,7 +100,7 @@ def modelObs (c : Cfg) (quiet : Bool) (outs : List FileOut) (st : Nat) : Obs :=
         lstMsgs := if c.listMode == .file then some (o.lst.err, o.lst.warn) else none } }
 
 def fileStr (o : FileOut) : String :=
-  let ps := o.passes.map fun p => s!"{p.con.err}.{p.con.warn}.{p.chan.err}.{p.chan.warn}.{p.jmpMsgs}.{p.forgotten}"
+  let ps := o.passes.map fun p => s!"{p.con.err}.{p.con.warn}.{p.chan.err}.{p.chan.warn}.{p.jmpMsgs}.{p.forgotten}.{p.filtered}"
   s!"{b01 o.codeFile}:{o.sumErr}.{o.sumWarn}:{b01 o.lstSummary}:{o.lst.err}.{o.lst.warn}:{b01 o.fatal}:{b01 o.dbl}:" ++ "/".intercalate ps
 
 def handle (line : String) : String :=
